@@ -93,6 +93,17 @@ pub fn gen_schedules(rng: &mut Rng, odd: bool) -> SchedulesDb {
             values,
         });
     }
+    // a week whose later days use a daily schedule nothing else refers to, and a year of 52 whole weeks plus one day of that week
+    let rest_week = if rng.chance(1, 3) {
+        let only_here = ScheduleDay { id: rng.uuid(), name: "dia_resto".into(), values: (0..24).map(|h| if h % 3 == 0 { 0.5 } else { 0.0 }).collect() };
+        let wk = ScheduleWeek { id: rng.uuid(), name: "semana_resto".into(), values: vec![(db.day[0].id, 1), (only_here.id, 6)] };
+        db.day.push(only_here);
+        let id = wk.id;
+        db.week.push(wk);
+        Some(id)
+    } else {
+        None
+    };
     let nyear = rng.range(1, 3);
     for i in 0..nyear {
         let nper = rng.range(1, if odd { 12 } else { 5 });
@@ -111,6 +122,11 @@ pub fn gen_schedules(rng: &mut Rng, odd: bool) -> SchedulesDb {
             name: format!("anual{i}"),
             values,
         });
+    }
+    if let Some(wk) = rest_week {
+        // replaces the first yearly schedule, so that whatever used it now uses this layout
+        let normal = db.week[0].id;
+        db.year[0].values = vec![(normal, 364), (wk, 1)];
     }
     db
 }
@@ -348,7 +364,8 @@ pub fn gen_model(rng: &mut Rng, o: &GenOpts) -> Model {
                             polygon: Polygon,
                             position: Option<Point3>,
                             bounds: BoundaryType| {
-            let next_to = if bounds == BoundaryType::INTERIOR && rng.chance(9, 10) {
+            // odd models: a wall that is no longer a partition may keep the neighbour it once had
+            let next_to = if (bounds == BoundaryType::INTERIOR && rng.chance(9, 10)) || (o.odd && rng.chance(1, 8)) {
                 other_space(rng, i, &m.spaces)
             } else {
                 None
@@ -565,6 +582,19 @@ pub fn gen_model(rng: &mut Rng, o: &GenOpts) -> Model {
                     ]),
                     polygon: rect(rng.f(1.0, 12.0, 1), rng.f(1.0, 9.0, 1)),
                 },
+            });
+        }
+    }
+
+    // ---- a louvre: 34 identical slats stacked a few centimetres apart (their centres coincide on two axes, at a decimal coordinate)
+    if o.positions && o.shades > 0 && rng.chance(1, 4) {
+        let (x0, y0, z0) = (rng.f(-10.0, 30.0, 2), rng.f(-20.0, -3.0, 2), rng.f(0.5, 3.0, 2));
+        let tilt = *rng.pick(&[0.0, 45.0, 90.0]);
+        for k in 0..34 {
+            m.shades.push(Shade {
+                id: rng.uuid(),
+                name: format!("lama{k}"),
+                geometry: WallGeom { tilt, azimuth: 0.0, position: Some(point![x0, y0, z0 + 0.03 * k as f32]), polygon: rect(2.1, 0.1) },
             });
         }
     }
